@@ -103,6 +103,29 @@ macro_rules! variant_mod {
             }
 
             pub fn run_lifetime(lt: &Lifetime, targets: &[u64], h: &mut dyn Hooks) -> OpResult {
+                if lt.inside_unwind {
+                    // the same lifetime, started from a destructor that runs because of a panic
+                    struct InDrop<F: FnMut()>(Option<F>);
+                    impl<F: FnMut()> Drop for InDrop<F> {
+                        fn drop(&mut self) {
+                            if let Some(mut f) = self.0.take() {
+                                f()
+                            }
+                        }
+                    }
+                    struct Outer;
+                    let mut out: Option<OpResult> = None;
+                    let mut plain = lt.clone();
+                    plain.inside_unwind = false;
+                    let r = catch_unwind(AssertUnwindSafe(|| {
+                        let _g = InDrop(Some(|| out = Some(run_lifetime(&plain, targets, h))));
+                        std::panic::panic_any(Outer);
+                    }));
+                    return match (out, r) {
+                        (Some(o), _) => o,
+                        (None, other) => classify(other.map(|_| ())),
+                    };
+                }
                 let r = catch_unwind(AssertUnwindSafe(|| {
                     let mut inj = InjectorPP::new();
                     for (i, op) in lt.ops.iter().enumerate() {
@@ -859,7 +882,7 @@ impl<'a> Hooks for Checker<'a> {
 }
 
 fn r_ok_but_should_have_panicked(ck: &Checker, lt: &Lifetime) -> bool {
-    ck.counted_installed && !lt.exit_panic && ck.last_exit_ok
+    ck.counted_installed && !lt.exit_panic && !lt.inside_unwind && ck.last_exit_ok
 }
 
 fn build_world(sc: &SimScenario) -> (World, Vec<(u64, Vec<u8>)>) {
@@ -1123,7 +1146,10 @@ pub fn execute(sc: &SimScenario) -> Outcome {
                 // a counted fake that was never called makes the verifier panic at scope exit:
                 // a normal way for a lifetime to end; restoration is judged all the same
                 let counted_live = ck.counted_installed;
-                if counted_live && !lt.exit_panic && m.contains("expected to be called") {
+                if lt.inside_unwind {
+                    // the thread was already unwinding: scope exit must stay silent
+                    ck.viol("second-panic-while-unwinding", &["C05", "C06"], format!("{what}: the lifetime runs inside a destructor during a panic, yet scope exit raised {m:?}"));
+                } else if counted_live && !lt.exit_panic && m.contains("expected to be called") {
                     *ck.out.faults.entry("verification_panic_at_scope_exit".into()).or_insert(0) += 1;
                 } else {
                     ck.viol("drop-panicked", &["C02", "C05"], format!("{what}: unexpected panic {m:?}"));
